@@ -97,9 +97,10 @@ macro "ow_tac" : tactic =>
     | rfl
     | (apply ow_setSlot; first | rfl | exact ow_addListen _ _ _ _ | exact ow_endListen _ _))
 
-theorem ow_changeSlot (k' : Kind) (b : Bool) (d : MSlot) (k : Kind) :
-    k ∈ (changeSlot k' b d).owed ↔ (k ∈ d.owed ∨ (k = k' ∧ d.connected = true)) := by
+theorem ow_changeSlot (k' : Kind) (b mx : Bool) (d : MSlot) (k : Kind) :
+    k ∈ (changeSlot k' b mx d).owed ↔ (k ∈ d.owed ∨ (k = k' ∧ d.connected = true)) := by
   simp only [changeSlot]
+  generalize (if mx = true then addNew d.rmMixed k' else d.rmMixed.filter (· != k')) = rm
   have key : ∀ d0 : MSlot, d0.connected = d.connected → d0.owed = d.owed →
       (k ∈ (if (d0.connected && !d0.owed.contains k') = true then { d0 with owed := d0.owed ++ [k'] } else d0).owed ↔
         (k ∈ d.owed ∨ (k = k' ∧ d.connected = true))) := by
@@ -486,7 +487,7 @@ theorem owed_step {m : MState} {t : Truth} (hA : Agrees m t) (o : Kind → Bool)
       split at hk
       · exact Or.inl ⟨hk, hnd, hns⟩
       · rename_i hoff
-        have hk : k ∈ (changeSlot (kindOfFSet f) _ (m.slots i)).owed := hk
+        have hk : k ∈ (changeSlot (kindOfFSet f) _ _ (m.slots i)).owed := hk
         rw [ow_changeSlot] at hk
         by_cases hold : k ∈ (m.slots i).owed
         · exact Or.inl ⟨hold, hnd, hns⟩
@@ -672,7 +673,7 @@ theorem owed_history (tr : Trace) (i : Slot) (k : Kind) (h : k ∈ ((monAfter {}
 
 /-- the clauses of the end of a case -/
 def IsEndClause (c : Clause) : Prop :=
-  c = .endMidFan ∨ c = .endSkippedAck ∨ c = .endF19 ∨ c = .endSkipped ∨ c = .endNoLost ∨
+  c = .endMixedRemove ∨ c = .endMidFan ∨ c = .endSkippedAck ∨ c = .endF19 ∨ c = .endSkipped ∨ c = .endNoLost ∨
   (∃ a b w, c = .lostWindow a b w .fin) ∨ (∃ o a b w, c = .lostOverlap o a b w .fin)
 
 theorem endSlotClause_some {m : MState} {i : Slot} {c : Clause} (h : endSlotClause m i = some c) :
@@ -704,6 +705,7 @@ theorem sound_end (tr : Trace) (r : Rec) (c : Clause) (h : Reports tr r c) (hc :
   rw [deliversK_snoc (by omega), truthAt_snoc_le tr r (by omega)]
   exact hall j rj hj1 hj2 hgetj
 
+theorem sound_endMixedRemove (tr : Trace) (r : Rec) (h : Reports tr r .endMixedRemove) : ¬ P_notified (tr ++ [r]) := sound_end tr r _ h rfl
 theorem sound_endMidFan (tr : Trace) (r : Rec) (h : Reports tr r .endMidFan) : ¬ P_notified (tr ++ [r]) := sound_end tr r _ h rfl
 theorem sound_endSkippedAck (tr : Trace) (r : Rec) (h : Reports tr r .endSkippedAck) : ¬ P_notified (tr ++ [r]) := sound_end tr r _ h rfl
 theorem sound_endF19 (tr : Trace) (r : Rec) (h : Reports tr r .endF19) : ¬ P_notified (tr ++ [r]) := sound_end tr r _ h rfl
